@@ -611,6 +611,8 @@ def unix_nontrivial(inp, impl):
             ks.append("inherited-fd")
     if " cancel " in inp:
         ks.append("cancelled-send")
+    if " ids " in inp:
+        ks.append("connections-created-concurrently-by-8-threads")
     return ks
 
 
